@@ -329,6 +329,8 @@ int main(int argc, char** argv) {
     std::string errfile = std::string(argv[2]) + ".stderr";
     long start = 0;
     int crashes = 0;
+    long timeout_at = -1;
+    int timeout_tries = 0;
     const int kMaxCrashes = 40;
     const long n = static_cast<long>(cmds.size());
     while (start < n) {
@@ -361,7 +363,15 @@ int main(int argc, char** argv) {
         // it flushes after every event, so everything before operation i is in the file.
         std::fseek(ev::out(), 0, SEEK_END);
         g_sh->idx = i;
-        crash_event(cmds[i], phase == 1 ? "enc" : phase == 2 ? "dec" : "driver", classify(errfile, status), false);
+        std::string why = classify(errfile, status);
+        // On an oversubscribed (virtualised) machine even CPU-time accounting is inflated now and then: a time-out
+        // is reported only if the same operation exceeds the watchdog three times in a row (a loop always does).
+        if (why == "timeout" && (i != timeout_at || ++timeout_tries < 3)) {
+            if (i != timeout_at) { timeout_at = i; timeout_tries = 1; }
+            start = i;
+            continue;
+        }
+        crash_event(cmds[i], phase == 1 ? "enc" : phase == 2 ? "dec" : "driver", why, false);
         start = i + 1;
         if (++crashes >= kMaxCrashes) {
             // every dead worker costs a fork of a sanitizer-instrumented process: after kMaxCrashes the rest of
